@@ -558,10 +558,13 @@ class Weaver:
                 raise Lost("R6: call of %s is not followed by `?`" % helper)
             inl = hbody.rstrip()
             inl = inl[:m_tail.start()] + m_tail.group(1)
-            inl = re.sub(r"\b%s\(\)" % re.escape(fparam), lambda _m: cbody, inl)
+            # parameters first (in the HELPER's text only), then the closure body - so an argument that happens to share
+            # its name with a variable of the closure body is not substituted a second time
             for pn, at in zip(pnames[:-1], atext[:-1]):
                 if pn != at:
-                    inl = re.sub(r"\b%s\b" % re.escape(pn), at, inl)
+                    rep = at if re.fullmatch(r"[\w.]+", at) else "(" + at + ")"
+                    inl = re.sub(r"\b%s\b" % re.escape(pn), lambda _m, rep=rep: rep, inl)
+            inl = re.sub(r"\b%s\(\)" % re.escape(fparam), lambda _m: cbody, inl)
             out.append(text[pos:m.start()])
             out.append("{" + inl + "\n}")
             pos = end + q.end()
